@@ -9,11 +9,17 @@ RULE = ("random RawMetadata dicts (random subset of the 30 fields in random inse
         "pools incl. values with braces / line breaks / non-ASCII, all seven metadata versions and invalid ones, unknown keys incl. names of "
         "Metadata class attributes) x validate True/False x random attribute read sequences with repeats; single-field x version sweeps; "
         "one-value mutations of accepted dicts; RFC 822 documents through from_email; non-trivial = every case (acceptance and the exact "
-        "error set are both observations); distinct by (dict, flag, reads)")
+        "error set are both observations); distinct by (dict, flag, reads); "
+        "improvement round: three-valued component oracles (accept / documented rejection / other exception, the last expected to escape), "
+        "reads of names that are not fields (AttributeError), dicts holding every field, Requires-Dist markers nested up to 300 deep, "
+        "4300-digit versions, documents with repeated and mutated header lines through the composed parse_email+from_email model "
+        "(m.from_email_doc); with the findings registered: 4301-digit numbers and 1000-deep markers (escaping ValueError / RecursionError)")
 ASSUMPTIONS = [
     "values are well typed per the RawMetadata TypedDict (str / list[str] / dict[str,str]); None values and lone surrogates are outside the domain",
     "SpecifierSet, Requirement, canonicalize_license_expression, EmailMessage content-type parsing and the pathlib tests are oracles: "
-    "the model is given the verdict and printed result the real component produced for each string",
+    "the model is given the verdict (accepted / documented exception / other exception) and printed result the real component produced for each string",
+    "attribute reads range over the field names and over names that are no attribute of the Metadata class at all (methods and private "
+    "attributes such as from_raw, _raw, __dict__ are not attribute reads of the property)",
 ]
 TRUSTED_EXTRA = ["oracle components (verdict + str() taken from the real component per value): packaging.specifiers.SpecifierSet, "
                  "packaging.requirements.Requirement, packaging.licenses.canonicalize_license_expression, "
@@ -101,27 +107,30 @@ def rand_dict(rng, p_valid=0.8):
     if mv is not None: d["metadata_version"] = mv
     for f in ("name", "version"):
         if rng.random() < 0.93: d[f] = pick_value(rng, f, 0.9)
-    for f in rng.sample(OPTIONAL, rng.choice([0, 1, 2, 3, 5, 8, 12])):
+    for f in rng.sample(OPTIONAL, rng.choice([0, 1, 2, 3, 5, 8, 12, 20, len(OPTIONAL)])):
         d[f] = pick_value(rng, f, p_valid)
     if rng.random() < 0.15:
-        for k in rng.sample(UNKNOWN, rng.choice([1, 1, 2])): d[k] = rng.choice(["x", ["x"], ""])
+        for k in rng.sample(UNKNOWN, rng.choice([1, 1, 2])): d[k] = rng.choice(["x", ["x"], "", {"a": "b"}, {}, []])
     items = list(d.items()); rng.shuffle(items)
     return dict(items)
 
 
 def consistent_dict(rng):
     """a dict that is (intended to be) accepted: version new enough for every field, valid values"""
-    fs = rng.sample(OPTIONAL, rng.choice([0, 2, 4, 8, 15]))
+    fs = rng.sample(OPTIONAL, rng.choice([0, 2, 4, 8, 15, 22, len(OPTIONAL)]))
     d = {"metadata_version": "2.4" if rng.random() < 0.6 else rng.choice(VERS), "name": pick_value(rng, "name", 1.0), "version": pick_value(rng, "version", 1.0)}
     for f in fs: d[f] = pick_value(rng, f, 1.0)
     items = list(d.items()); rng.shuffle(items)
     return dict(items)
 
 
+NON_ATTR = ["bogus", "Name", "requires-dist", "License-File", "summary ", "", "versions", "Summary", "metadata-version", "{x}", "raw", "license_file"]
+
+
 def rand_reads(rng, d):
     n = rng.choice([0, 1, 3, 6, 12])
     pool = [k for k in d if k in ALL_FIELDS] * 3 + ALL_FIELDS
-    return [rng.choice(pool) for _ in range(n)]
+    return [rng.choice(NON_ATTR) if rng.random() < 0.06 else rng.choice(pool) for _ in range(n)]
 
 
 def enc_dict(d):
@@ -168,7 +177,7 @@ def attach_oracles(protos):
     ans = core.run_impl(IMPL_MODULE, [("m.oracle", [c, s]) for c, s in qs])
     table = {}
     for q, a in zip(qs, ans):
-        table[q] = json.loads(a) if not a.startswith("!") else []      # a component that fails unexpectedly: the model then expects InvalidMetadata
+        table[q] = json.loads(a) if not a.startswith("!") else ["x" + a[5:]]      # the component raised something undocumented: ORaise
     out = []
     for stream, cmd, head, d, tail in protos:
         otoks = []
@@ -181,6 +190,9 @@ def attach_oracles(protos):
 HEADER = {k: k.replace("_", "-").title() for k in ALL_FIELDS}
 HEADER.update(platforms="Platform", supported_platforms="Supported-Platform", classifiers="Classifier", project_urls="Project-URL",
               license_files="License-File")
+
+
+HDR_ATOMS = ["*", "*0*", "*0", "'", "%", "=?utf-8?q?x?=", "=?", "?=", '"', ";", "=", " ", "\t", "(", ")", "<", ">", "@", ",", "\u00e9"]
 
 
 def serialise(rng, d):
@@ -196,6 +208,17 @@ def serialise(rng, d):
         else: lines.append("%s: %s" % (h, v.replace("\n", "\n ")))
     if rng.random() < 0.15:
         lines.insert(rng.randrange(len(lines) + 1), rng.choice(["X-Unknown: 1", "Name: second", "Keywords: a", "Project-URL: Home, http://dup", "Version: 2", "Summary: again"]))
+    if lines and rng.random() < 0.15:
+        # repeat existing header lines (same or another value, another capitalisation), any number of times
+        for _ in range(rng.choice([1, 1, 2, 4])):
+            h, _, v = rng.choice(lines).partition(": ")
+            if rng.random() < 0.5: v = rng.choice(["x", "1.0", v + "x", "", "a, b"])
+            if rng.random() < 0.5: h = gen.rand_case(rng, h.lower())
+            lines.insert(rng.randrange(len(lines) + 1), "%s: %s" % (h, v))
+    if lines and rng.random() < 0.12:
+        # damage one header value with the atoms of the header-value grammar (RFC 2231 / 2047 / quoting)
+        i = rng.randrange(len(lines)); h, sep, v = lines[i].partition(": ")
+        lines[i] = h + sep + gen.mutate(rng, v, HDR_ATOMS)
     body = d.get("description", "") if isinstance(d.get("description"), str) else ""
     return "\n".join(lines) + "\n" + ("\n" + body if body else "")
 
@@ -257,6 +280,68 @@ def streams(rng, tier):
                 d = {"metadata_version": "2.4", "name": "n", "version": "1", f: lst}
                 for val in ("T", "F"):
                     protos.append(("pool-values", "m.from_raw", [val] + enc_dict(d), d, ["R" + f, "R" + f]))
+    # 5c. sizes: markers nested 1..300 deep in Requires-Dist (accepted), 4300-digit numbers (the longest CPython converts), every field at once
+    base = {"metadata_version": "2.4", "name": "n", "version": "1"}
+    for depth in ([1, 30, 120, 300] if q else [1, 2, 5, 30, 60, 120, 200, 250, 300]):
+        nested = "a; " + "(" * depth + "os_name=='x'" + ")" * depth
+        for lst in ([nested], ["b>1", nested], [nested, "a b"]):
+            d = dict(base, requires_dist=lst)
+            for val in ("T", "F"):
+                protos.append(("sizes", "m.from_raw", [val] + enc_dict(d), d, ["Rrequires_dist", "Rname"]))
+    big = "9" * 4300
+    for d in (dict(base, version=big), dict(base, version="1." + big), dict(base, requires_python=">=" + big), dict(base, requires_dist=["a==" + big])):
+        for val in ("T", "F"):
+            protos.append(("sizes", "m.from_raw", [val] + enc_dict(d), d, ["Rversion", "Rrequires_python", "Rrequires_dist"]))
+    for _ in range(20 if q else 400):
+        d = {"metadata_version": "2.4", "name": pick_value(rng, "name", 1.0), "version": pick_value(rng, "version", 1.0)}
+        for f in OPTIONAL: d[f] = pick_value(rng, f, 0.95)
+        items = list(d.items()); rng.shuffle(items); d = dict(items)
+        protos.append(("sizes", "m.from_raw", ["T" if rng.random() < 0.7 else "F"] + enc_dict(d), d, ["R" + f for f in rand_reads(rng, d)]))
+    # 5d. (only once the findings are registered in known_findings.txt) inputs on which a component raises something undocumented
+    if _registered("match_c17_d10"):
+        over = "9" * 4301
+        for d in (dict(base, version=over), dict(base, requires_python=">=" + over), dict(base, requires_dist=["a==" + over]),
+                  dict(base, requires_dist=["b", "a>=" + over]), dict(base, requires_dist=["a b", "a>=" + over]), dict(base, version="1!" + over + ".1"),
+                  dict(base, metadata_version="1.0", requires_python=">=" + over), dict(base, requires_python=">=" + over, bogus="x")):
+            for val in ("T", "F"):
+                protos.append(("escape-d10", "m.from_raw", [val] + enc_dict(d), d, ["Rname", "Rrequires_python", "Rrequires_dist", "Rversion"]))
+    if _registered("match_c17_deep"):
+        for depth in (1000, 3000):
+            nested = "a; " + "(" * depth + "os_name=='x'" + ")" * depth
+            for d in (dict(base, requires_dist=[nested]), dict(base, requires_dist=["a b", nested]), dict(base, requires_dist=["b", nested], summary="a\nb"),
+                      dict(base, metadata_version="1.1", requires_dist=[nested])):
+                for val in ("T", "F"):
+                    protos.append(("escape-deep", "m.from_raw", [val] + enc_dict(d), d, ["Rname", "Rrequires_dist"]))
+    # 5e. the heap model: lazy object, reads interleaved with in-place changes by the caller / the holder of a returned list
+    for _ in range(600 if q else 30000):
+        d = consistent_dict(rng) if rng.random() < 0.7 else rand_dict(rng)
+        d = {k: v for k, v in d.items() if k in ALL_FIELDS}
+        lf = [k for k in d if isinstance(d[k], list)] or ["keywords"]
+        ops, extra = [], {"requires_dist": [], "license_files": []}
+        for _ in range(rng.choice([2, 4, 8, 14])):
+            r = rng.random()
+            k = rng.choice(lf) if rng.random() < 0.8 else rng.choice(LIST_F)
+            items = [rng.choice((ITEMS[k][0] + ITEMS[k][1][:2]) if k in ITEMS else PLAIN_S) for _ in range(rng.choice([0, 1, 2]))]
+            if k in extra: extra[k] += items
+            if r < 0.45: ops.append("R" + (rng.choice(lf) if rng.random() < 0.7 else rng.choice(ALL_FIELDS + NON_ATTR[:3])))
+            elif r < 0.6: ops.append("\x1f".join(["a" + k] + items))
+            elif r < 0.68: ops.append("d" + k)
+            elif r < 0.86: ops.append("\x1f".join(["m" + k] + items))
+            else: ops.append("\x1f".join(["h" + k] + items))
+        dq = dict(d)                                       # oracle verdicts also for the items the operations may put into converted lists
+        for k, its in extra.items():
+            if its: dq[k] = (list(dq[k]) if isinstance(dq.get(k), list) else []) + its
+        protos.append(("heap", "m.heap", ["F"] + enc_dict(d), dq, ops))
+    for k in LIST_F:          # every list field: change in place before / after the first read, by the caller / the holder; rebind; delete
+        good = ITEMS[k][0] if k in ITEMS else PLAIN_S
+        v0, v1, v2 = [good[0]], [good[0], good[1]], [good[2]]
+        d = {"metadata_version": "2.4", "name": "n", "version": "1", k: list(v0)}
+        dq = dict(d); dq[k] = v0 + v1 + v2
+        J = "\x1f".join
+        for ops in (["R" + k, J(["m" + k] + v1), "R" + k, J(["h" + k] + v2), "R" + k, J(["a" + k] + v1), "R" + k, "d" + k, "R" + k],
+                    [J(["m" + k] + v1), "R" + k, J(["a" + k] + v2), J(["m" + k] + v0), "R" + k],
+                    ["d" + k, "R" + k, J(["h" + k] + v1), "R" + k], [J(["h" + k] + v1), J(["a" + k] + v2), "R" + k]):
+            protos.append(("heap", "m.heap", ["F"] + enc_dict(d), dq, ops))
     cases = attach_oracles(protos)
 
     # 6. from_email: documents -> parse_email (implementation) -> (raw, unparsed) tokens -> model of from_email
@@ -278,6 +363,21 @@ def streams(rng, tier):
         ptoks = json.loads(ptoks)
         d = dec_tokens(ptoks)
         protos.append(("from_email", "m.from_email", ["T" if validate else "F", ("X" if kind == "s" else "B") + text] + ptoks, d, ["R" + f for f in rand_reads(rng, d)]))
+    cases += attach_oracles(protos)
+
+    # 6b. Metadata.from_email as a whole: the model composes the C18 model of parse_email (fed with what the email package delivers,
+    #     e.extract of email_impl) with the validation; the raw dict the implementation parsed only supplies the oracle queries
+    ext = core.run_impl("email_impl", [("e.extract", [k, t]) for k, t, _, _ in docs])
+    protos = []
+    for (kind, text, validate, d0), ptoks, etoks in zip(docs, parsed, ext):
+        if ptoks.startswith("!") or etoks.startswith("!"): continue
+        d = dec_tokens(json.loads(ptoks))
+        protos.append(("from_email_doc", "m.from_email_doc", ["T" if validate else "F", ("X" if kind == "s" else "B") + text] + json.loads(etoks), d,
+                       ["R" + f for f in rand_reads(rng, d)]))
+    if _registered("match_c17_d10"):
+        text = "Metadata-Version: 2.4\nName: a\nVersion: " + "9" * 4301 + "\n"
+        d = {"metadata_version": "2.4", "name": "a", "version": "9" * 4301}
+        protos.append(("escape-d10", "m.from_email_doc", ["T", "X" + text, "HMetadata-Version", "V2.4", "HName", "Va", "HVersion", "V" + "9" * 4301, "Y"], d, []))
     cases += attach_oracles(protos)
 
     # 7. direct laws on the implementation
@@ -305,8 +405,41 @@ def pick_valid_spec(f):
     return SPEC_VALID[f]
 
 
+def _registered(matcher):
+    """is a known finding with this matcher listed in known_findings.txt?  (the streams that trigger it are generated only then)"""
+    return any(f["matcher"] == matcher for f in core.load_findings("C17"))
+
+
+def _model_predicts_escape(impl, model):
+    """the model, from the oracle table, says that this very exception escapes: from from_raw/from_email, or from a lazy attribute read"""
+    return isinstance(model, str) and (model == impl or (model.startswith("OK|") and impl in model.split("|")[1:]))
+
+
+def _has_run(case, n):
+    import re
+    return any(re.search(r"[0-9]{%d,}" % n, a) for a in case.args)
+
+
+def match_c17_d10(case, impl, model):
+    """D10 seen through Metadata: a Version / Requires-Python / Requires-Dist value with a run of more than 4300 digits makes int() raise
+    a bare ValueError (CPython's digit limit), which escapes from from_raw / from_email / the lazy read instead of InvalidMetadata.
+    Instance = such a run in the input AND exactly ValueError escapes.  (For Version the model's own parser has no digit limit; for the
+    two oracle components the model predicts the escape from the oracle table.)"""
+    return case.cmd in ("m.from_raw", "m.from_email", "m.from_email_doc") and impl == "!EXC:ValueError" and _has_run(case, 4301)
+
+
+def match_c17_deep(case, impl, model):
+    """A Requires-Dist marker nested deeper than the interpreter's recursion limit allows: RecursionError escapes instead of InvalidMetadata.
+    Instance = a Requires-Dist entry with more than 400 consecutive '(' AND exactly RecursionError escapes AND the model predicts that
+    escape from the oracle table (Requirement itself raised RecursionError on that entry)."""
+    return (case.cmd in ("m.from_raw", "m.from_email", "m.from_email_doc") and impl == "!EXC:RecursionError"
+            and any(a.startswith("I") and "(" * 401 in a for a in case.args) and _model_predicts_escape(impl, model))
+
+
 def compare(case, impl, model):
-    if impl.startswith("!EXC"): return "an exception other than ExceptionGroup/InvalidMetadata escapes: " + impl
+    if impl.startswith("!EXC"):
+        return ("an exception other than ExceptionGroup/InvalidMetadata escapes: " + impl +
+                ("" if _model_predicts_escape(impl, model) else " (and the model does not predict it from the component verdicts)"))
     if impl.startswith("G!"): return "the group holds a member that is not InvalidMetadata"
     if "CALLER-DICT-MODIFIED" in impl: return "the caller's raw dict was modified"
     return None if impl == model else "implementation differs from model"
